@@ -2588,10 +2588,20 @@ def rule_assign(repo, backend):
             elif isinstance(n_, ast.If) and any(isinstance(x, ast.Constant) and x.value == 'end' for st_ in n_.body for x in ast.walk(st_)) \
                     and not any(isinstance(x, (ast.If, ast.For)) for st_ in n_.body for x in ast.walk(st_)):
                 tests.append(('end', n_.test, n_))
+        judged_here = 0
         for kind, test, node_ in tests:
+            # a condition kept in a local (`multi = len( node.body ) > 1`) is judged through its definition
+            seen_names = set()
+            while isinstance(test, ast.Name) and test.id not in seen_names:
+                seen_names.add(test.id)
+                rv = reaching_value(test.id, node_)
+                if rv is None:
+                    break
+                test = rv
             fld = [x for x in fields if x in norm(test)]
             if not fld:
                 continue
+            judged_here += 1
             verdicts = {}
             for label, stmts_ in (('one chained assignment `a = b = x`', [('Assign', 2)]), ('two statements', [('Assign', 1), ('Assign', 1)])):
                 try:
@@ -2607,6 +2617,8 @@ def rule_assign(repo, backend):
                       f"to the {'else' if fld[0] == 'orelse' else 'for'}, the second runs unconditionally", node_.lineno)
             else:
                 r.ok(c.mod, fq(c, f), cons)
+        if tests and not judged_here:
+            raise AnalysisError(f"{fq(c, f)}: the begin/end conditions of {hname} could not be related to node.{fields[0]}")
     # (f) block layout
     block_layout(lk, vis, 'visit_CombUpblk', r, _comb_header, 'combinational')
     block_layout(lk, vis, 'visit_SeqUpblk', r, _seq_header, 'update_ff')
@@ -3991,7 +4003,8 @@ def rule_modname(repo, backend):
 
 
 # ---------------------------------------------------------------------------
-_FOR_RE = re.compile(r"for\((?:int unsigned |integer |int )?(?P<v>[^;=]+)=⟨(?P<s>\d+)⟩;(?P=v)(?P<c><=|>=|<|>|!=)⟨(?P<e>\d+)⟩;"
+_FOR_RE = re.compile(r"for\((?:int unsigned |integer |int )?(?P<v>[^;=]+)=⟨(?P<s>\d+)⟩;(?P=v)(?P<c><=|>=|<|>|!=)⟨(?P<e>\d+)⟩"
+                     r"(?:&&(?P=v)<=⟨(?P<g>\d+)⟩)?;"
                      r"(?P=v)(?:(?P<i1>[+-])=|=(?P=v)(?P<i2>[+-]))⟨(?P<st>\d+)⟩\)(.*)")
 
 
@@ -4057,8 +4070,93 @@ def rule_for(repo, backend):
             elif key not in good:
                 good.add(key)
                 r.ok(c.mod, fq(c, f), cons)
+    # termination of a count-down that does not land on its end value: the counter is unsigned (`int unsigned`, or an integer
+    # compared with an unsigned sized literal), so after the last value it wraps to 2**32 - k, which still is `> end`; the header is
+    # executed on 32-bit unsigned arithmetic and must visit exactly the values of the Python range
+    for o, v in headers:
+        m = _FOR_RE.fullmatch(v.skeleton())
+        if not m or not possible(v.conds, {'node.step._value': -3, 'node.step.value': -3, 'len(node.body)': 2}):
+            continue
+        comp, inc = m.group('c'), m.group('i1') or m.group('i2')
+        guard = m.group('g') is not None and m.group('g') == m.group('s')
+        wrong = None
+        for a_, b_, st_ in ((13, 0, -3), (6, 0, -3), (7, 2, -2), (5, 0, -1)):
+            nev += 1
+            cur, seen_vals = a_, []
+            for _ in range(12):
+                ok_c = {'>': cur > b_, '>=': cur >= b_, '<': cur < b_, '<=': cur <= b_, '!=': cur != b_}[comp]
+                if not ok_c or (guard and not cur <= a_):
+                    break
+                seen_vals.append(cur)
+                cur = (cur - abs(st_) if inc == '-' else cur + abs(st_)) % (1 << 32)
+            if seen_vals != list(range(a_, b_, st_)) and wrong is None:
+                wrong = (a_, b_, st_, seen_vals)
+        cons = "visit_For: a count-down header visits the values of the range and stops"
+        if cons in reported:
+            continue
+        reported.add(cons)
+        if wrong:
+            a_, b_, st_, seen_vals = wrong
+            r.bad(c.mod, fq(c, f), cons, f"range({a_}, {b_}, {st_}) visits {list(range(a_, b_, st_))}; the emitted header, run on the unsigned "
+                  f"counter it declares, visits {seen_vals[:7]}...: after the last value the counter wraps around instead of going "
+                  f"negative, `i > end` stays true and the loop does not terminate (elaboration of the emitted Verilog fails / hangs)",
+                  o.node.lineno)
+        else:
+            r.ok(c.mod, fq(c, f), cons)
+    # the amount added / subtracted per iteration is |step|, however the negative step is represented: as -(literal), whose
+    # translation starts with '-', or as a node that carries the negative constant itself (a folded literal, a constant
+    # attribute s.K = -3, a free variable), whose translation is the two's complement at the constant's own width
+    def own_width(val):
+        return 1 if -1 <= val <= 1 else ((abs(val) - 1).bit_length() + 1 if val < 0 else val.bit_length())
+    mag_bad, mag_n = {}, 0
+    for st in (-1, -2, -3, -5, 2, 3):
+        nmag = abs(st)
+        reps = [('a literal', f"{nmag.bit_length()}'d{nmag}")] if st > 0 else \
+               [('-(literal)', f"-{nmag.bit_length()}'d{nmag}"),
+                ('a negative constant (s.K / folded literal)', f"{own_width(st)}'d{st % (1 << own_width(st))}")]
+        for what, text in reps:
+            lv = {'s.visit(node.step)': text, 'node.step._value': st, 'node.step.value': st}
+            for o, v in headers:
+                m = _FOR_RE.fullmatch(v.skeleton())
+                if not m:
+                    continue
+                it = _Interp(lv, {})
+                live = True
+                for t_, pol in v.conds:
+                    if isinstance(t_, str):
+                        continue
+                    try:
+                        if bool(it.ev(t_)) != pol:
+                            live = False
+                            break
+                    except (AnalysisError, Raised, TypeError, KeyError, IndexError):
+                        pass
+                if not live:
+                    continue
+                h = hole_list(v.parts)[int(m.group('st'))]
+                mag_n += 1
+                nev += 1
+                try:
+                    emitted = str(it.ev(h.expr)).strip()
+                except (AnalysisError, Raised, TypeError, KeyError, IndexError) as e:
+                    raise AnalysisError(f"{fq(c, f)}: the step of the loop header is outside the abstract domain: {h.text[:80]}")
+                mm = re.fullmatch(r"(\d+)'d(\d+)|(\d+)", emitted)
+                got = None if not mm else int(mm.group(2) if mm.group(2) is not None else mm.group(3))
+                if got != nmag:
+                    mag_bad.setdefault(what, []).append((st, text, emitted, o))
+    if mag_n == 0 and any(_FOR_RE.fullmatch(v.skeleton()) for o, v in headers):
+        raise AnalysisError(f"{fq(c, f)}: the step of the loop header was not evaluated")
+    for what in (('a literal', '-(literal)', 'a negative constant (s.K / folded literal)') if mag_n else ()):
+        cons = f"visit_For: amount per iteration for a step given as {what}"
+        if what in mag_bad:
+            st, text, emitted, o = mag_bad[what][0]
+            r.bad(c.mod, fq(c, f), cons, f"for step {st}, translated as `{text}`, the loop variable changes by `{emitted}` per iteration "
+                  f"instead of {abs(st)} ({len(mag_bad[what])} steps wrong): range(7, 0, s.K) with s.K = -3 is emitted as `j -= 3'd5`, "
+                  f"the unsigned counter wraps and the loop runs with other index values than the simulation (7, 4, 1)", o.node.lineno)
+        else:
+            r.ok(c.mod, fq(c, f), cons)
     r.evaluations = nev
-    r.require_floor(2)
+    r.require_floor(2 + 3 + 1)
     return r
 
 
@@ -5183,6 +5281,21 @@ def rule_wire_forms(repo):
                           f"is not declared under that condition (undeclared implicit 1-bit net)", wiff.lineno)
                 else:
                     r.ok(c.mod, fq(c, f), cons)
+    # observation (no verdict): an output port is glued flat <- packed; the behavioural emitter writes struct fields by their
+    # flat names whatever side of the assignment they are on
+    res_pd = lk.find(top, 'rtlir_tr_port_decl')
+    vis_y = tov_visitor(repo, 'yosys')
+    if res_pd is not None:
+        pc, pf = res_pd
+        flat_from_packed = any(isinstance(x, ast.Constant) and isinstance(x.value, str) and
+                               re.fullmatch(r"assign \{pid\} = \{wid\}\{idx\};", x.value.strip()) for x in ast.walk(pf))
+        lhs_aware = any(isinstance(x, ast.Attribute) and x.attr == 'is_assign_LHS'
+                        for cc_, ff_ in lk.all_defs(vis_y, 'visit_Attribute') for x in ast.walk(ff_))
+        if flat_from_packed and not lhs_aware:
+            r.observations.append("struct-typed OUTPUT ports: the port glue drives the flat ports from the packed wire (assign o__a = o[7:4]) "
+                                  "while visit_Attribute names a struct field by its flat name also on the left-hand side, so a design "
+                                  "that writes the fields in an update block drives o__a twice and never drives o (port analogue of "
+                                  "D21; needs write analysis, see triage/c03_c12_yosys_struct_output_two_drivers.py)")
     if n_rebuild < 2 or n_filter < 3:
         raise AnalysisError(f"R-C12-wire-forms: record pipeline not recognised ({n_rebuild} rebuild stages, {n_filter} filter stages)")
     r.evaluations = n + n_rebuild + n_filter
@@ -6117,6 +6230,57 @@ def rule_dims_order(repo, backend):
                           f"st__bus__lane__msg without the [0:1] of the lane array and still indexes it", call.lineno)
     if n_rec == 0:
         raise AnalysisError("R-tr-dims-order: the recursion of the sub-component interface port declaration into nested interfaces was not found")
+    # structural accesses: a signal expression is translated from the component outwards, so the array indices of
+    # s.pe[r][c].in_ / s.pe[r].ifc[c].msg reach the producers in source order (r, then c); whatever end the producers push at,
+    # the consumer must emit the pending indices in that order: name[r][c]
+    import collections
+    qattrs = set()
+    for cc in lk.mro(top):
+        for init in cc.methods().values():
+            for st in ast.walk(init):
+                if isinstance(st, ast.Assign) and isinstance(st.value, ast.Call) and norm(st.value.func) in ('deque', 'collections.deque') \
+                        and not st.value.args:
+                    qattrs |= {t.attr for t in st.targets if isinstance(t, ast.Attribute) and isinstance(t.value, ast.Name)}
+    producers, consumers = [], []
+    for cc in lk.mro(top):
+        if not cc.mod.rel.startswith(SV_DIR):
+            continue
+        for mname, mf in sorted(cc.methods().items()):
+            if lk.find(top, mname) != (cc, mf) and (lk.find(top, mname) or (None, None))[1] is not mf:
+                continue
+            for x in walk_no_nested(mf):
+                if isinstance(x, ast.Call) and isinstance(x.func, ast.Attribute) and isinstance(x.func.value, ast.Attribute) \
+                        and x.func.value.attr in qattrs and x.func.attr in ('append', 'appendleft') and len(x.args) == 1:
+                    producers.append((cc, mf, x, x.func.value.attr))
+                if isinstance(x, (ast.ListComp, ast.GeneratorExp)) and any(isinstance(y, ast.Attribute) and y.attr in qattrs
+                                                                           for g_ in x.generators for y in ast.walk(g_.iter)):
+                    qa = [y for g_ in x.generators for y in ast.walk(g_.iter) if isinstance(y, ast.Attribute) and y.attr in qattrs][0]
+                    consumers.append((cc, mf, x, qa))
+    if qattrs and (not producers or not consumers):
+        raise AnalysisError("R-tr-dims-order: producers / consumer of the pending index queue of the structural translator not found")
+    for (c1, f1, x1, a1), (c2, f2, x2, a2) in itertools.product(producers, producers):
+        if a1 != a2:
+            continue
+        for cc, cf, comp, qa in consumers:
+            if qa.attr != a1:
+                continue
+            q_ = collections.deque()
+            for x_, tok in ((x1, 'r'), (x2, 'c')):
+                getattr(q_, x_.func.attr)(tok)
+            n += 1
+            try:
+                out_ = _Interp({norm(qa): q_}, {}).ev(comp)
+            except (AnalysisError, Raised, TypeError, KeyError, IndexError) as e:
+                raise AnalysisError(f"{fq(cc, cf)}: the emission of the pending indices is outside the abstract domain: {norm(comp)[:60]}")
+            txt = ''.join(str(t) for t in out_)
+            cons = f"s.X[r]..[c]: indices queued by {f1.name} then {f2.name}, emitted by {cf.name}"
+            if 'r' in txt and 'c' in txt and txt.index('r') < txt.index('c'):
+                if f1 is f2 or True:
+                    r.ok(c2.mod, fq(c2, f2), cons, nontrivial=f1 is f2)
+            else:
+                r.bad(c2.mod, fq(c2, f2), cons, f"the access X[r]...[c] is emitted with the indices as `{txt}`: the producers push at "
+                      f"{'different ends' if x1.func.attr != x2.func.attr else 'the end the consumer reads last'}, so s.pe[r][c].in_ "
+                      f"is emitted as pe__in_[c][r] (the element of another instance for a non-square or asymmetric access)", x2.lineno)
     # the accesses: pending (interface / component) indices are emitted before the port's own index
     vis = tov_visitor(repo, 'sv')
     for cc, ff in lk.all_defs(vis, 'visit_Index'):
@@ -6127,7 +6291,7 @@ def rule_dims_order(repo, backend):
                     n += 1
                     r.ok(cc.mod, fq(cc, ff), "access template <name>{pending indices}[own index]", nontrivial=False)
     r.evaluations = n
-    r.require_floor(9)
+    r.require_floor(13)
     return r
 
 
